@@ -61,22 +61,39 @@ Proof. cbn. intros H. apply andb_true_iff in H. tauto. Qed.
 Lemma nonempty_true {A} (l : list A) : nonempty l = true <-> l <> [].
 Proof. destruct l; cbn; split; congruence. Qed.
 
-(* ---------- where the numeral run ends *)
+(* ---------- where the numeral run ends: at a byte that is neither a hexadecimal digit nor a dot *)
 Definition stop (rest : list Z) : Prop :=
-  match rest with [] => True | c :: _ => is_alnum c = false /\ c <> 46 end.
+  match rest with [] => True | c :: _ => is_hex c = false /\ c <> 46 end.
 
 Lemma num_run_spec h : forall s ae run rest, num_run h ae s = (run, rest) -> s = run ++ rest /\ stop rest.
 Proof.
   induction s as [|c r IH]; intros ae run rest H; cbn [num_run] in H.
   - inversion H; subst. cbn. auto.
-  - destruct (is_alnum c || (c =? 46)) eqn:C.
+  - destruct (is_hex c || (c =? 46) || (h && ((c =? 112) || (c =? 80)))) eqn:C.
     + destruct (num_run h _ r) as [a b] eqn:E in H. inversion H; subst.
       destruct (IH _ _ _ E) as (-> & Hs). auto.
     + destruct (ae && ((c =? 43) || (c =? 45))) eqn:C2.
       * destruct (num_run h false r) as [a b] eqn:E. inversion H; subst.
         destruct (IH _ _ _ E) as (-> & Hs). auto.
-      * inversion H; subst. cbn. apply orb_false_iff in C. destruct C as [C1 C3]. split; [reflexivity|].
+      * inversion H; subst. cbn. apply orb_false_iff in C. destruct C as [C _].
+        apply orb_false_iff in C. destruct C as [C1 C3]. split; [reflexivity|].
         split; [exact C1 | lia].
+Qed.
+
+Lemma num_body_spec s run rest : num_body s = (run, rest) -> s = run ++ rest /\ stop rest.
+Proof.
+  unfold num_body. destruct s as [|z [|x r]]; try apply num_run_spec.
+  destruct (is_hex_prefix (z :: x :: r)); [|apply num_run_spec].
+  destruct (num_run true false r) as [a b] eqn:E. intros H. inversion H; subst.
+  destruct (num_run_spec _ _ _ _ _ E) as (-> & Hs). auto.
+Qed.
+
+Lemma num_split_spec s run rest : num_split s = (run, rest) -> s = run ++ rest /\ stop rest.
+Proof.
+  unfold num_split. destruct s as [|c r]; [intros H; inversion H; subst; cbn; auto|].
+  destruct (c =? 46); [|apply num_body_spec].
+  destruct (num_body r) as [a b] eqn:E. intros H. inversion H; subst.
+  destruct (num_body_spec _ _ _ E) as (-> & Hs). auto.
 Qed.
 
 (* 0x / 0b prefix test, with explicit comparisons instead of matching on the literal 48 *)
@@ -123,23 +140,28 @@ Proof.
   cbn [firstn skipn]. assert (z = 48) by lia. subst. reflexivity.
 Qed.
 
-(* the run and the subject have the same prefix kind, because the prefix bytes are alphanumeric *)
-Lemma num_run_pfx h l u s run rest :
-  is_alnum l = true -> is_alnum u = true -> num_run h false s = (run, rest) -> pfx l u s = pfx l u run.
+(* the run and the subject have the same prefix kind, because the prefix bytes belong to the run *)
+Lemma num_split_len2 l u s run rest : (l = 120 /\ u = 88) \/ (l = 98 /\ u = 66) ->
+  pfx l u s = true -> num_split s = (run, rest) -> exists x r, run = 48 :: x :: r.
 Proof.
-  intros Hl Hu H. destruct s as [|z [|x r]].
-  - cbn in H. inversion H; reflexivity.
-  - cbn in H. destruct (is_alnum z || (z =? 46)); inversion H; reflexivity.
-  - cbn [num_run] in H. destruct (is_alnum z || (z =? 46)) eqn:Cz.
-    + destruct (is_alnum x || (x =? 46)) eqn:Cx.
-      * destruct (num_run h _ r) as [a b]. inversion H; subst. reflexivity.
-      * destruct (_ && ((x =? 43) || (x =? 45))).
-        -- destruct (num_run h false r) as [a b]. inversion H; subst. reflexivity.
-        -- inversion H; subst. cbn [pfx]. apply orb_false_iff in Cx. destruct Cx as [Cx _].
-           destruct (Z.eqb_spec x l); [subst; congruence|]. destruct (Z.eqb_spec x u); [subst; congruence|].
-           cbn. apply andb_false_r.
-    + cbn [andb] in H. inversion H; subst. cbn [pfx]. apply orb_false_iff in Cz. destruct Cz as [Cz _].
-      destruct (Z.eqb_spec z 48); [subst; cbn in Cz; discriminate | reflexivity].
+  intros Hlu P H. destruct (pfx_shape _ _ _ P) as (x & r & -> & Hx).
+  unfold num_split in H. change (48 =? 46) with false in H. cbv iota in H. unfold num_body in H.
+  assert (Eh : is_hex_prefix (48 :: x :: r) = (x =? 120) || (x =? 88)) by reflexivity. rewrite Eh in H.
+  destruct ((x =? 120) || (x =? 88)) eqn:Cx.
+  - destruct (num_run true false r) as [a b]. inversion H; subst. eauto.
+  - assert (Hh : is_hex x = true).
+    { unfold is_hex, is_lower_hex, is_upper_hex, is_digit. lia. }
+    cbn [num_run] in H. change (is_hex 48) with true in H. rewrite Hh in H. cbn [orb] in H.
+    destruct (num_run false _ r) as [a b]. inversion H; subst. eauto.
+Qed.
+
+Lemma num_split_pfx l u s run rest : (l = 120 /\ u = 88) \/ (l = 98 /\ u = 66) ->
+  num_split s = (run, rest) -> pfx l u s = pfx l u run.
+Proof.
+  intros Hlu H. destruct (num_split_spec _ _ _ H) as (Hs & _).
+  destruct (pfx l u s) eqn:P.
+  - destruct (num_split_len2 _ _ _ _ _ Hlu P H) as (x & r & ->). subst s. symmetry. exact P.
+  - destruct run as [|z [|x run]]; try reflexivity. subst s. symmetry. exact P.
 Qed.
 
 (* ---------- digit strings *)
@@ -267,19 +289,20 @@ Proof.
 Qed.
 
 (* ---------- the scanners stop where the run stops *)
-Lemma digit_alnum c : is_digit c = true -> is_alnum c = true.
-Proof. unfold is_alnum, is_alpha, is_digit. lia. Qed.
-Lemma hex_alnum c : is_hex c = true -> is_alnum c = true.
-Proof. unfold is_hex, is_lower_hex, is_upper_hex, is_alnum, is_alpha, is_digit. lia. Qed.
-Lemma bin_alnum c : is_bin c = true -> is_alnum c = true.
-Proof. unfold is_bin, is_alnum, is_alpha, is_digit. lia. Qed.
+Lemma digit_inhex c : is_digit c = true -> is_hex c = true.
+Proof. unfold is_hex, is_digit. lia. Qed.
+Lemma hex_inhex c : is_hex c = true -> is_hex c = true.
+Proof. exact (fun H => H). Qed.
+Lemma bin_inhex c : is_bin c = true -> is_hex c = true.
+Proof. unfold is_bin, is_hex, is_digit. lia. Qed.
 
-Definition alnum_class (p : Z -> bool) : Prop := forall c, p c = true -> is_alnum c = true.
+(* the digit classes of the scanners are inside the hexadecimal digits, at which no run stops *)
+Definition hex_class (p : Z -> bool) : Prop := forall c, p c = true -> is_hex c = true.
 
-Lemma alnum_class_46 p : alnum_class p -> p 46 = false.
+Lemma hex_class_46 p : hex_class p -> p 46 = false.
 Proof. intros H. destruct (p 46) eqn:E; [|reflexivity]. apply H in E. cbn in E. discriminate. Qed.
 
-Lemma stop_hdfail p rest : alnum_class p -> stop rest -> hdfail p rest.
+Lemma stop_hdfail p rest : hex_class p -> stop rest -> hdfail p rest.
 Proof.
   intros Hp Hs. destruct rest as [|c r]; [exact I|]. cbn in Hs |- *. destruct Hs as [Ha _].
   destruct (p c) eqn:E; [|reflexivity]. apply Hp in E. congruence.
@@ -292,7 +315,7 @@ Lemma stop_opt_exp rest : stop rest -> opt_exp rest = ([], rest).
 Proof.
   destruct rest as [|c r]; [reflexivity|]. cbn [stop opt_exp]. intros [H _].
   assert (E : (c =? 101) || (c =? 69) = false).
-  { unfold is_alnum, is_alpha, is_digit in H. lia. }
+  { unfold is_hex, is_lower_hex, is_upper_hex, is_digit in H. lia. }
   rewrite E. reflexivity.
 Qed.
 
@@ -305,12 +328,12 @@ Proof.
 Qed.
 
 Lemma scan_based_ok l u p x ip fpart rest :
-  (x = l \/ x = u) -> alnum_class p -> forallb p ip = true -> ip <> [] -> frac_syn p fpart -> stop rest ->
+  (x = l \/ x = u) -> hex_class p -> forallb p ip = true -> ip <> [] -> frac_syn p fpart -> stop rest ->
   scan_based l u p (48 :: x :: ip ++ fpart ++ rest) = Some (48 :: x :: ip ++ fpart, rest).
 Proof.
   intros Hx Hp Hip Hne Hf Hs. unfold scan_based, num_prefix.
   assert (E : (48 =? 48) && ((x =? l) || (x =? u)) = true) by lia. rewrite E.
-  pose proof (alnum_class_46 p Hp) as H46.
+  pose proof (hex_class_46 p Hp) as H46.
   assert (Hhd : hdfail p (fpart ++ rest)).
   { destruct Hf as [-> | (fp & -> & _)]; [apply stop_hdfail; assumption | exact H46]. }
   rewrite (take_while1_app p ip (fpart ++ rest) Hne Hip Hhd).
@@ -327,7 +350,7 @@ Proof.
 Qed.
 
 Lemma scan_based_frac_ok l u p x fp rest :
-  (x = l \/ x = u) -> alnum_class p -> forallb p fp = true -> fp <> [] -> stop rest ->
+  (x = l \/ x = u) -> hex_class p -> forallb p fp = true -> fp <> [] -> stop rest ->
   scan_based_frac l u p (48 :: x :: 46 :: fp ++ rest) = Some (48 :: x :: 46 :: fp, rest).
 Proof.
   intros Hx Hp Hfp Hne Hs. unfold scan_based_frac, num_prefix.
@@ -343,7 +366,7 @@ Proof. intros H. unfold scan_based_frac. rewrite num_prefix_pfx, H. reflexivity.
 
 (* the two rows of one base, on a numeral of that base *)
 Lemma based_rows_ok l u p x body rest n d base :
-  (x = l \/ x = u) -> alnum_class p -> parse_based base p body = Some (n, d) -> stop rest ->
+  (x = l \/ x = u) -> hex_class p -> parse_based base p body = Some (n, d) -> stop rest ->
   match scan_based l u p (48 :: x :: body ++ rest) with
   | Some (a, r) => Some (KNumber, a, r)
   | None =>
@@ -356,7 +379,7 @@ Proof.
   intros Hx Hp Hb Hs. apply parse_based_shape in Hb. destruct Hb as (ip & fpart & -> & Hip & Hf).
   destruct ip as [|c ip].
   - destruct Hf as [(_ & N & _)|(fp & -> & Hfne & Hfp & _)]; [congruence|]. cbn [app].
-    rewrite scan_based_nofrac by (apply alnum_class_46; exact Hp).
+    rewrite scan_based_nofrac by (apply hex_class_46; exact Hp).
     rewrite (scan_based_frac_ok l u p x fp rest Hx Hp Hfp Hfne Hs). reflexivity.
   - rewrite <- app_assoc.
     rewrite (scan_based_ok l u p x (c :: ip) fpart rest Hx Hp Hip ltac:(discriminate) (frac_shape_syn _ _ _ _ _ _ Hf) Hs). reflexivity.
@@ -364,7 +387,7 @@ Qed.
 
 Lemma opt_exp_ok m dd ep n d rest : exp_shape m dd ep n d -> stop rest -> opt_exp (ep ++ rest) = (ep, rest).
 Proof.
-  intros He Hs. pose proof (stop_hdfail is_digit rest digit_alnum Hs) as Hd.
+  intros He Hs. pose proof (stop_hdfail is_digit rest digit_inhex Hs) as Hd.
   destruct He as [(-> & _)|(e & ds & Hee & Hne & Hds & [(-> & _)|(-> & _)])].
   - apply stop_opt_exp. exact Hs.
   - cbn [app opt_exp]. assert (E : (e =? 101) || (e =? 69) = true) by (unfold is_e in Hee; lia). rewrite E.
@@ -379,7 +402,7 @@ Lemma exp_hd ep m dd n d rest : exp_shape m dd ep n d -> stop rest ->
   hdfail is_digit (ep ++ rest) /\ hd_is 46 (ep ++ rest) = false.
 Proof.
   intros He Hs. destruct He as [(-> & _)|(e & ds & Hee & _ & _ & [(-> & _)|(-> & _)])].
-  - split; [apply stop_hdfail; [exact digit_alnum | exact Hs] | apply stop_not46; exact Hs].
+  - split; [apply stop_hdfail; [exact digit_inhex | exact Hs] | apply stop_not46; exact Hs].
   - cbn. unfold is_e in Hee. unfold is_digit. split; lia.
   - cbn. unfold is_e in Hee. unfold is_digit. split; lia.
 Qed.
@@ -420,25 +443,25 @@ Qed.
 (* whenever the reference reads a numeral at the start of s, the first matching number row of the table
    matches exactly the same extent *)
 Theorem number_scan_agrees : forall s run rest n d,
-  num_run (is_hex_prefix s) false s = (run, rest) ->
+  num_split s = (run, rest) ->
   spec_numeral run = Some (n, d) ->
   first_matcher number_rows s = Some (KNumber, run, rest).
 Proof.
   intros s run rest n d Hrun Hnum.
-  pose proof (num_run_pfx _ 120 88 _ _ _ eq_refl eq_refl Hrun) as Px.
-  pose proof (num_run_pfx _ 98 66 _ _ _ eq_refl eq_refl Hrun) as Pb.
-  destruct (num_run_spec _ _ _ _ _ Hrun) as (-> & Hs).
+  pose proof (num_split_pfx 120 88 _ _ _ (or_introl (conj eq_refl eq_refl)) Hrun) as Px.
+  pose proof (num_split_pfx 98 66 _ _ _ (or_intror (conj eq_refl eq_refl)) Hrun) as Pb.
+  destruct (num_split_spec _ _ _ Hrun) as (-> & Hs).
   rewrite spec_numeral_pfx in Hnum.
   cbn [first_matcher number_rows run_matcher]. rewrite m_hex_eq, m_bin_eq.
   destruct (pfx 120 88 run) eqn:Cx.
   - destruct (pfx_shape _ _ _ Cx) as (x & body & -> & Hx). cbn [skipn] in Hnum.
-    pose proof (based_rows_ok 120 88 is_hex x body rest n d 16 Hx hex_alnum Hnum Hs) as K.
+    pose proof (based_rows_ok 120 88 is_hex x body rest n d 16 Hx hex_inhex Hnum Hs) as K.
     cbn [app]. destruct (scan_based 120 88 is_hex (48 :: x :: body ++ rest)) as [[a r]|]; [exact K|].
     destruct (scan_based_frac 120 88 is_hex (48 :: x :: body ++ rest)) as [[a r]|]; [exact K | discriminate].
   - rewrite (scan_based_no_pfx _ _ _ _ Px), (scan_based_frac_no_pfx _ _ _ _ Px).
     destruct (pfx 98 66 run) eqn:Cb.
     + destruct (pfx_shape _ _ _ Cb) as (x & body & -> & Hx). cbn [skipn] in Hnum.
-      pose proof (based_rows_ok 98 66 is_bin x body rest n d 2 Hx bin_alnum Hnum Hs) as K.
+      pose proof (based_rows_ok 98 66 is_bin x body rest n d 2 Hx bin_inhex Hnum Hs) as K.
       cbn [app]. destruct (scan_based 98 66 is_bin (48 :: x :: body ++ rest)) as [[a r]|]; [exact K|].
       destruct (scan_based_frac 98 66 is_bin (48 :: x :: body ++ rest)) as [[a r]|]; [exact K | discriminate].
     + rewrite (scan_based_no_pfx _ _ _ _ Pb), (scan_based_frac_no_pfx _ _ _ _ Pb).
@@ -557,7 +580,7 @@ Proof. intros [(-> & _)|(-> & _)]; reflexivity. Qed.
 Lemma class_not46 base p x l : base_ok base p x -> forallb p l = true -> mem_byte 46 l = false.
 Proof.
   intros Hb. apply mem_byte_class_false. intros c Hc.
-  destruct Hb as [(_ & -> & _)|(_ & -> & _)]; [apply hex_alnum in Hc | apply bin_alnum in Hc]; intros ->; discriminate.
+  destruct Hb as [(_ & -> & _)|(_ & -> & _)]; [apply hex_inhex in Hc | apply bin_inhex in Hc]; intros ->; discriminate.
 Qed.
 
 Lemma based_value_ok base p x ip fpart n d : base_ok base p x ->
@@ -581,7 +604,7 @@ Proof.
     rewrite E. cbn [skipn].
     assert (Hv : forallb (fun c => negb (c =? 46)) ip = true).
     { apply (forallb_imp p); [|exact Hip]. intros c Hc.
-      destruct Hb as [(_ & -> & _)|(_ & -> & _)]; [apply hex_alnum in Hc | apply bin_alnum in Hc];
+      destruct Hb as [(_ & -> & _)|(_ & -> & _)]; [apply hex_inhex in Hc | apply bin_inhex in Hc];
         destruct (Z.eqb_spec c 46) as [->|]; try reflexivity; discriminate. }
     rewrite take_while_eq, (span_app _ ip (46 :: fp) Hv) by (cbn; reflexivity).
     rewrite Hfp46.
@@ -739,7 +762,7 @@ Corollary spec_number_agrees s t rest : spec_number s = Some (t, rest) ->
   s_kind t = SNumber /\ s_text t = s_raw t /\
   tok_value (s_raw t) = Ok (s_num t, s_den t) /\ 0 < s_den t.
 Proof.
-  unfold spec_number. destruct (num_run (is_hex_prefix s) false s) as [run rest0] eqn:E.
+  unfold spec_number. destruct (num_split s) as [run rest0] eqn:E.
   destruct (spec_numeral run) as [[n d]|] eqn:N; [|discriminate]. intros H; inversion H; subst. cbn.
   destruct (number_value_agrees _ _ _ N) as [V D].
   split; [exact (number_scan_agrees _ _ _ _ _ E N)|]. auto.
